@@ -24,8 +24,16 @@ REDIRS = ["> f1", ">> f1", "2> f2", "2>> f2", "2>&1", "1>&2", ">&2", "> f1 2>&1"
 
 def gen_cmd(rng, k, script_mode):
     """returns (text, kind, features)"""
-    kind = rng.choice(["pipe", "pipe", "redir", "builtin", "capture", "capture", "here", "fail", "bg"])
+    kind = rng.choice(["pipe", "pipe", "redir", "builtin", "capture", "capture", "here", "fail", "bg", "state"])
     tag = "@%d" % k
+    if kind == "state":
+        # commands that go through other code paths of the shell: source, function call, read, assignment prefix,
+        # a list with && / ||, history, arithmetic
+        t = rng.choice(["source %s/inc.sh" % "$VP_INC", "read RV%d <<< w%d" % (k, k), "RV%d=1 vp_argv e %s" % (k, tag),
+                        "vp_status 1 %s && vp_argv n %s || vp_argv y %s" % (tag, tag, tag), "history", "1 + 2 * 3",
+                        "cd . ; vp_argv c %s" % tag, "unset RV%d" % k, "export PX%d=$(vp_out K %s)" % (k, tag)] +
+                       (["myfn a " + tag, "myfn a %s > f1" % tag, "myfn a %s | vp_st snk %s" % (tag, tag)] if script_mode else []))
+        return t, kind, ["t=" + t.split()[0]]
     if kind == "pipe":
         n = rng.randint(1, 6)
         st = []
@@ -84,6 +92,8 @@ def run_script(sb, case):
         f.write("input\n")
     with open(os.path.join(sb.vpdir, "out.K"), "w") as f:
         f.write("kout\n")
+    with open(os.path.join(sb.root, "inc.sh"), "w") as f:
+        f.write("vp_argv inc @0\nvp_out K @0 | vp_st snk @0\nSV=1\n")
     lines = ["vp_snap S"]
     for i, (text, kind, feats) in enumerate(case["cmds"]):
         lines.append(text)
@@ -93,9 +103,9 @@ def run_script(sb, case):
         path = os.path.join(sb.root, "s.sh")
         with open(path, "w") as f:
             f.write(body)
-        r = run_cicada(sb, [path], timeout=60)
+        r = run_cicada(sb, [path], timeout=60, env_extra={"VP_INC": sb.root})
     else:
-        r = run_cicada(sb, ["-c", " ; ".join(lines)], timeout=60)
+        r = run_cicada(sb, ["-c", " ; ".join(lines)], timeout=60, env_extra={"VP_INC": sb.root})
     return r, sb.records()
 
 
